@@ -1234,6 +1234,52 @@ def _list_append(it, l, x):
     l.append(x)
 
 
+def _sl_append(it, l, x):
+    isn, val = _optparts(it, x)
+    l.isnone = z3.Store(l.isnone, l.length, isn)
+    l.val = z3.Store(l.val, l.length, val)
+    l.length = z3.simplify(l.length + 1)
+
+
+def _sl_shift(l, from_idx, by):
+    """arrays of the list in which every position >= from_idx is moved by ``by`` (+1: make room, -1: close a gap)"""
+    i = z3.Int("sl!i")
+    l.isnone = z3.Lambda([i], z3.If(i >= from_idx, z3.Select(l.isnone, i - by), z3.Select(l.isnone, i)))
+    l.val = z3.Lambda([i], z3.If(i >= from_idx, z3.Select(l.val, i - by), z3.Select(l.val, i)))
+
+
+def _sl_pop(it, l, *a):
+    if a:
+        k = _fold_opt(it, a[0])
+        kt = lift_int(k)
+    else:
+        kt = l.length - 1
+    if not it.decide(l.length > 0):
+        raise _PyExc(IndexError("pop from empty list"))
+    if it.decide(z3.And(kt >= 0, kt < l.length)):
+        pass
+    elif it.decide(z3.And(kt < 0, kt >= -l.length)):
+        kt = kt + l.length
+    else:
+        raise _PyExc(IndexError("pop index out of range"))
+    kt = z3.simplify(kt)
+    out = OptInt(z3.Select(l.isnone, kt), z3.Select(l.val, kt))
+    _sl_shift(l, kt, -1)
+    l.length = z3.simplify(l.length - 1)
+    return out
+
+
+def _sl_insert(it, l, k, x):
+    kt = lift_int(_fold_opt(it, k))
+    kt = z3.If(kt < 0, z3.If(kt + l.length < 0, 0, kt + l.length), z3.If(kt > l.length, l.length, kt))
+    kt = z3.simplify(kt)
+    isn, val = _optparts(it, x)
+    _sl_shift(l, kt, 1)
+    l.isnone = z3.Store(l.isnone, kt, isn)
+    l.val = z3.Store(l.val, kt, val)
+    l.length = z3.simplify(l.length + 1)
+
+
 def _set_add(it, s, x):
     """set.add with a segment string: kept by identity (membership is decided by contains() as a disjunction of
     equalities, so a semantic duplicate is harmless; len()/iteration of such a set stay unsupported)"""
@@ -1457,6 +1503,9 @@ _METHODS = {
     (SymSet, "add"): _symset_add,
     (SymSet, "remove"): _symset_remove,
     (SymSet, "discard"): _symset_discard,
+    (SymList, "append"): _sl_append,
+    (SymList, "pop"): _sl_pop,
+    (SymList, "insert"): _sl_insert,
     (set, "add"): _set_add,
     (str, "replace"): _ss_call("replace"),
     (list, "append"): _list_append,
